@@ -25,7 +25,7 @@ func checkC02(c *Ctx) {
 		"K7 label sets inside decoded options re-emit their original bytes only while their names are unchanged under an exact comparison (shared with C19-K1)")
 	r.NotDecided = append(r.NotDecided, "value equality beyond slot/field/transform agreement (behaviour of net, time, append)", "label codec internals (C19)")
 	e1ParserTables(c, "C02-K1")
-	containerRules(c, "C02-K10")
+	containerRules(c, "C02-K10", "6")
 	labelNameCap(c, "C02-K6")
 	e1CheckConstants(c, "C02-K5", []string{"dhcpv6.", "iana.StatusCode", "iana.Arch", "iana.HWType", "iana.EnterpriseID"}, 200)
 	byteOrderRule(c, "C02-K8", []string{"dhcpv6", "iana", "rfc1035label"}, 40)
